@@ -148,6 +148,10 @@ func runCase(e *engine, c Case) implResult {
 	if res.pv != nil {
 		res.out = "panic"
 	}
+	if strings.HasPrefix(res.out, "child-crashed ") { // an entry that runs in a child process (see child.go)
+		res.pv, res.site, res.stack = "child process crashed", strings.TrimPrefix(res.out, "child-crashed "), ""
+		res.out = "panic"
+	}
 	return res
 }
 
@@ -178,7 +182,13 @@ func evalCases(cases []Case, o *common.Options, rep *common.Report) error {
 			e := findEngine(c.Entry)
 			if e.line != nil {
 				curNow = nows[i]
-				if l := e.line(c); l != "" {
+				var l string
+				// some line builders call the real parser to know what the model should be told; if the code under
+				// test panics there, the implementation run of this case has already reported it
+				if pv, _, _ := safely(func() { l = e.line(c) }); pv != nil {
+					l = ""
+				}
+				if l != "" {
 					lines = append(lines, l)
 					idx = append(idx, i)
 				}
@@ -236,16 +246,24 @@ func sizeBucket(n int) int {
 }
 
 func main() {
+	if os.Getenv("C06_CHILD") == "httpfwd" {
+		childMain()
+		return
+	}
 	o := common.ParseFlags()
 	rep := common.NewReport("C06", o)
 	for _, e := range engines {
 		rep.Engines = append(rep.Engines, "fuzz-"+e.name)
 	}
+	rep.Engines = append(rep.Engines, "fuzz-http-fwd")
 	sort.Strings(rep.Engines)
-	rep.Rule = "one case = one call of one network-facing entry point (socks5 *FromSlice / readers, ss2022 header parsers, ss2022 UDP SessionInfo/NewUnpacker/UnpackInPlace with real keys, " +
-		"direct/none/socks5 packet unpackers, direct server reply packing through service config load, wire bytes -> router.Config match with every port representation and criterion kind, " +
-		"real servers' handshakes over netio pipes) on: boundary corpus (every truncation of every valid seed, oversized, length bytes 0/255, port 0, empty/over-long names, type/atyp flips) + " +
-		"structure-aware generation + random mutation of valid seeds; compared with the Lean model: ok/err class and parsed value; oracle: no panic. " +
+	rep.Rule = "one case = one call of one network-facing entry point: socks5 *FromSlice / AppendFromReader / ConnAddrFromReader; ss2022 header parsers on plaintext; " +
+		"ss2022 UDP SessionInfo/NewUnpacker/UnpackInPlace and the client unpacker with real keys (valid seal of hostile plaintext, corrupted tag, garbage); direct/none/socks5 packet unpackers on relay-style buffers; " +
+		"direct server reply packing through service config load; wire bytes -> socks5.ConnAddrFromSlice -> router.Config match with generated routes (every port representation: 1 port / <=16 ranges / bit set; every criterion kind; inversion; resolver answers); " +
+		"real handshakes over netio pipes with chunked delivery: ssnone, socks5 server (no-auth and user/pass, CONNECT / UDP ASSOCIATE / unsupported, Proceed/Abort replies), socks5 client vs hostile server, ss2022 TCP server (garbage and key-sealed hostile requests, post-handshake chunks), " +
+		"HTTP proxy ServerHandle (+ routing of the parsed address), Host-header differential, HTTP CONNECT client, dns.Resolver over a scripted TCP upstream, HTTP forwarding goroutines in child processes. " +
+		"Inputs: boundary corpus (every truncation of every valid seed, oversized, length bytes 0/255, port 0, empty/over-long names, type/atyp flips) + structure-aware generation + random mutation of valid seeds. " +
+		"Compared with the Lean model (where a model line exists): ok/err class and parsed value (and bytes written by the SOCKS5 server); oracle on every case: no panic. " +
 		"non-trivial = the call returned (ok or err) rather than panicking; distinct by (entry, input bytes, parameters)"
 	var err error
 	if o.Replay != "" {
@@ -269,7 +287,7 @@ func main() {
 }
 
 func runAll(o *common.Options, rep *common.Report) error {
-	total := o.Budget(50000, 3000000)
+	total := o.Budget(50000, 600000)
 	r := common.NewRng(o.Seed)
 	// directed probes of the findings assigned to other builders' fixes (re-derived here through the oracle)
 	probeFindings(o, rep)
@@ -282,6 +300,8 @@ func runAll(o *common.Options, rep *common.Report) error {
 		batch = batch[:0]
 		return err
 	}
+	// plain-HTTP forwarding of the HTTP proxy (hostile client and hostile origin), in child processes
+	runHTTPFwd(o, rep, r.Fork(999), total/50)
 	for ei := range engines {
 		e := &engines[ei]
 		if e.fixed != nil {
